@@ -28,6 +28,8 @@ pub struct Cfg {
     pub preallocate: bool,
     /// rollback segment size knob (0 = built-in 64 MiB)
     pub seg_size: u64,
+    /// adversarial device: the I/O workers deliver the completions of a burst newest first
+    pub io_reverse: bool,
 }
 
 impl Default for Cfg {
@@ -46,6 +48,7 @@ impl Default for Cfg {
             upper_levels: 2,
             preallocate: false,
             seg_size: 0,
+            io_reverse: false,
         }
     }
 }
@@ -65,7 +68,7 @@ impl Cfg {
         json!({"buckets": self.buckets, "seed": self.seed, "cc": self.cc, "io_workers": self.io_workers,
                "rollback": self.rollback, "log_len": self.log_len, "warm_up": self.warm_up,
                "page_cache": self.page_cache, "leaf_cache": self.leaf_cache, "prepopulate": self.prepopulate,
-               "upper_levels": self.upper_levels, "preallocate": self.preallocate, "seg_size": self.seg_size})
+               "upper_levels": self.upper_levels, "preallocate": self.preallocate, "seg_size": self.seg_size, "io_reverse": self.io_reverse})
     }
     pub fn from_json(v: &Value) -> Self {
         let d = Cfg::default();
@@ -85,6 +88,7 @@ impl Cfg {
             upper_levels: u("upper_levels", d.upper_levels as u64) as usize,
             preallocate: b("preallocate", d.preallocate),
             seg_size: u("seg_size", d.seg_size),
+            io_reverse: b("io_reverse", d.io_reverse),
         }
     }
     pub fn options(&self, dir: &Path) -> Options {
@@ -157,6 +161,7 @@ pub fn open_nomt_retry<H: HashAlgorithm>(dir: &Path, cfg: &Cfg, secs: u64) -> an
 
 pub fn open_nomt<H: HashAlgorithm>(dir: &Path, cfg: &Cfg) -> anyhow::Result<Nomt<H>> {
     nomt::verif::knobs::set_rollback_segment_size(cfg.seg_size);
+    nomt::verif::io::set_reverse_completions(cfg.io_reverse);
     Nomt::<H>::open(cfg.options(dir))
 }
 
